@@ -187,6 +187,16 @@ func groupLabelShadowedAfterRules(docs []parser.VerifDoc) bool {
 	return found
 }
 
+// hasLoneCR: the class predicate of the open known finding C02-lone-cr (a CR that is not followed by LF).
+func hasLoneCR(content []byte) bool {
+	for j := 0; j < len(content); j++ {
+		if content[j] == '\r' && (j+1 >= len(content) || content[j+1] != '\n') {
+			return true
+		}
+	}
+	return false
+}
+
 type c02Fail struct {
 	What    string `json:"what"`
 	Variant string `json:"variant"`
@@ -278,7 +288,7 @@ func runC02One(args []string) int {
 		}
 	}
 	if term != "" {
-		o.Term = fmt.Sprintf("{| c_base := %s;\n c_entries_strict := %s;\n c_entries_relaxed := %s |}", term, obsS, obsR)
+		o.Term = fmt.Sprintf("{| c_base := %s;\n c_entries_strict := %s;\n c_entries_relaxed := %s;\n c_lone_cr := %s |}", term, obsS, obsR, coqBool(hasLoneCR(content)))
 	} else {
 		o.Hist = append(o.Hist, "skipped:forest-too-large")
 	}
@@ -393,12 +403,7 @@ func runC02(args []string) int {
 		cyc := hasAliasCycle(docs)
 		tcyc := hasTemplateAliasCycle(it.content)
 		shadow := groupLabelShadowedAfterRules(docs)
-		loneCR := false
-		for j := 0; j < len(content); j++ {
-			if content[j] == '\r' && (j+1 >= len(content) || content[j+1] != '\n') {
-				loneCR = true
-			}
-		}
+		loneCR := hasLoneCR(content)
 		addFail := func(what string, variant string, relaxed bool, extra any) {
 			of := oracleFail{ID: fmt.Sprint(id), What: what, Case: map[string]any{"content": it.content, "class": it.class, "variant": variant, "lines": nl, "observed": extra}}
 			// classes repaired in pint (f44c1ab, da58998, 5f8fd57, aba0d51, 4008951, 147313f) are no longer known
